@@ -64,6 +64,10 @@ def gen_cases(tier, seed):
     else:
         bases = [n for n in names if M[n]["order"] <= 10]
         levels = {b: [2, 3, 4, 5] for b in bases}
+    for b in (bases[:4] if tier == "quick" else bases):
+        for order_ in ("ascending", "descending"):
+            cases.append(dict(kind="richardson_sequence", method=b, order=order_, dtype="float64", pseed=1000 * seed + 77,
+                              cost=(1 + ((M[b]["order"] + 1) / 4.0) ** 2 * (1 if M[b]["explicit"] else 6)) * 30))
     for b in bases:
         for n in levels[b]:
             p = M[b]["order"]
@@ -141,6 +145,8 @@ def run_case(spec):
         return _run_richardson(spec)
     if kind == "slope":
         return _run_slope(spec)
+    if kind == "richardson_sequence":
+        return _run_richardson_sequence(spec)
     raise ValueError(kind)
 
 
@@ -248,6 +254,33 @@ def _run_richardson(spec):
         else:
             mech = "wrapper_lower_order_than_base"
         rec.violate("richardson_order", mech, feats, defect=worst, tau=tau, base_defect=wb, wrapper_defect_at_base_grade=ww)
+    return rec.out()
+
+
+def _run_richardson_sequence(spec):
+    """wrappers of ONE base with 2,3,4,5 levels requested one after the other in the same process (either order): each must
+    have the order its own level count implies, whatever was generated before it."""
+    M = util.methods()
+    info = M[spec["method"]]
+    p = info["order"]
+    sep = info["splitting"]
+    seq = [2, 3, 4, 5] if spec["order"] == "ascending" else [5, 4, 3, 2]
+    rec = util.Rec(sig="richseq|%s|%s" % (spec["method"], spec["order"]))
+    tau = TAU[spec["dtype"]]
+    factories = [(n, util.richardson(info["cls"], n)) for n in seq]     # all generated first, then probed
+    for n, factory in factories:
+        g = p if n == 2 else p + 1
+        worst, acc = _probe_grade(factory, g, spec["pseed"] + n, spec["dtype"], 1, sep, False, rec, "richseq")
+        rec.bump("richardson_probes_accepted", acc)
+        rec.bump("richardson_sequence_probes", 1 if acc else 0)
+        rec.nontrivial = rec.nontrivial or acc > 0
+        if acc and worst > tau:
+            feats = {"method": spec["method"], "levels": n, "declared": p, "grade": g, "family": info["family"], "sequence": spec["order"]}
+            wb, ab = _probe_grade(info["cls"], p, spec["pseed"], spec["dtype"], 1, sep, False, rec, "base")
+            mech = "base_method_not_of_declared_order" if (ab and wb > tau) else "wrapper_order_depends_on_previously_generated_wrappers"
+            # does a wrapper generated in isolation pass? (attribution only)
+            rec.violate("richardson_order", mech, feats, defect=worst, tau=tau)
+    rec.sample = {"spec": spec, "levels_in_order": seq}
     return rec.out()
 
 
